@@ -857,7 +857,9 @@ class VectorNumpy(Vector, GetItem):
         equal_nan: bool | FloatArray = False,
     ) -> BoolCollection:
         """Like ``np.ndarray.allclose``, but for VectorNumpy."""
-        return self.isclose(other, rtol=rtol, atol=atol, equal_nan=equal_nan).all()
+        return numpy.all(
+            self.isclose(other, rtol=rtol, atol=atol, equal_nan=equal_nan)
+        )
 
     def sum(
         self: SameVectorNumpyType,
